@@ -105,7 +105,10 @@ CALLS = [
     ('recv_until', b'|', False), ('recv_until', b'|-', False), ('recv_until', b'|', True),
     ('recv_size', 1), ('recv_size', 2), ('recv_size', 3), ('peek', 2), ('recv', 1), ('recv', 2), ('recv_close',),
     ('recv_until', b'--', True), ('recv_until', b'|-|', False),
+    # limits given per call instead of per socket: maxsize=None (unlimited) and a number that differs from the socket's
+    ('recv_close', None), ('recv_close', 2), ('recv_until', b'|', False, None), ('recv_until', b'|', True, 1),
 ]
+INF = 1 << 60
 
 
 class Model:
@@ -119,11 +122,12 @@ class Model:
         k = call[0]
         if k == 'recv_until':
             d, with_d = call[1], call[2]
-            i = rest.find(d, 0, self.maxsize)
+            maxsize = self.maxsize if len(call) < 4 else (INF if call[3] is None else call[3])
+            i = rest.find(d, 0, maxsize)
             if i >= 0:
                 self.pos += i + len(d)
                 return ('ok', rest[:i + len(d)] if with_d else rest[:i])
-            if len(rest) > self.maxsize:
+            if len(rest) > maxsize:
                 return ('exc', 'MessageTooLong')
             return ('exc', 'ConnectionClosed')
         if k == 'recv_size':
@@ -136,7 +140,8 @@ class Model:
                 return ('ok', rest[:call[1]])
             return ('exc', 'ConnectionClosed')
         if k == 'recv_close':
-            if len(rest) <= self.maxsize:
+            maxsize = self.maxsize if len(call) < 2 else (INF if call[1] is None else call[1])
+            if len(rest) <= maxsize:
                 self.pos = len(self.s)
                 return ('ok', rest)
             return ('exc', 'MessageTooLong')
@@ -161,7 +166,11 @@ def do_call(bs, call, sock, max_retries):
     n_to = 0
     while True:
         try:
-            if k == 'recv_until':
+            if k == 'recv_until' and len(call) > 3:
+                v = bs.recv_until(call[1], with_delimiter=call[2], maxsize=call[3])
+            elif k == 'recv_close' and len(call) > 1:
+                v = bs.recv_close(maxsize=call[1])
+            elif k == 'recv_until':
                 v = bs.recv_until(call[1], with_delimiter=call[2])
             elif k == 'recv_size':
                 v = bs.recv_size(call[1])
